@@ -307,11 +307,13 @@ def first_diff(sc, t, v, a, b):
                 return d
     if k == "data" and v[0] == "obj" and v[1] == t[1] and a[0] == "dict" and b[0] == "dict":
         c = sc.cls(t[1])
-        if len(a[1]) == len(b[1]) == len(c.fields) and [q[0] for q in a[1]] == [q[0] for q in b[1]]:
-            vals = dict(v[2])
-            for (fn, _, ft), (_, ax), (_, bx) in zip(c.fields, a[1], b[1]):
-                if fn in vals:
-                    d = first_diff(sc, ft, vals[fn], ax, bx)
+        # outputs are matched by key (name or alias): sort_keys / omit_none / omit_default reorder or drop entries
+        da, db, vals = dict(a[1]), dict(b[1]), dict(v[2])
+        if set(da) == set(db):
+            for (fn, al, ft) in c.fields:
+                key = fn if fn in da else al
+                if key in da and fn in vals:
+                    d = first_diff(sc, ft, vals[fn], da[key], db[key])
                     if d:
                         return d
     return (t, v)
@@ -409,6 +411,8 @@ def oracle_entry_points(ctx, sc, mod, src, cls_name, v, conforming_kind):
             if sig["kind"] == "dialect-priority":
                 ctx.hist("oracle_kind", "skipped:dialect-priority")
                 continue
+            mix, oth = (outs[ref], outs[k]) if "to_dict" in ref and outs[ref][0] == "err" else (outs[k], outs[ref])
+            sig = (trap_sig(sc, ("data", cls_name), mix, oth) if ("to_dict" in ref or "to_dict" in k) else None) or sig
             ctx.fail(f"entry points disagree on {cls_name}: {ref} = {show(outs[ref])} but {k} = {show(outs[k])}",
                      {"entry": "entry-points-pack", "source": src, "class": cls_name, "value": v, "dialect": sc.dialect,
                       "a": ref, "b": k, "observed_a": show(outs[ref]), "observed_b": show(outs[k]),
@@ -455,7 +459,9 @@ def oracle_entry_points(ctx, sc, mod, src, cls_name, v, conforming_kind):
                          {"entry": "entry-points-unpack", "source": src, "class": cls_name, "wire": d, "dialect": sc.dialect,
                           "a": names[0], "b": k, "observed_a": show(douts[names[0]]), "observed_b": show(douts[k]),
                           "expected": "identical results"},
-                         {"kind": "unclassified-unpack"})
+                         (trap_sig(sc, ("data", cls_name), *((douts[names[0]], douts[k]) if "from_dict" in names[0] and douts[names[0]][0] == "err"
+                                                              else (douts[k], douts[names[0]])))
+                          if ("from_dict" in names[0] or "from_dict" in k) else None) or {"kind": "unclassified-unpack"})
                 break
     # Optional[D] and None
     r = L.call(lambda: (BasicDecoder(Optional[D], **kw).decode(None), BasicEncoder(Optional[D], **kw).encode(None)))
@@ -707,6 +713,9 @@ def oracle_frame(ctx, sc, src, vals_by_root, steps):
                     # is a class creation that annotated that plain subclass
                     if kind == "subclass-with-field" and "to_dict" in p[0] and has_plain_strict_sub(sc, sc.roots[p[2]], v):
                         sig = {"kind": "subclass-creation-installs-method"}
+                    if "to_dict" in p[0] or "from_dict" in p[0]:
+                        # a mixin probe that failed BEFORE (first call with dialect=) and works after something compiled
+                        sig = trap_sig(sc, sc.roots[p[2]], b, a) or sig
                     ctx.fail(f"creating {kind} changed {p[0]}: before {show(b)} after {show(a)}",
                              {"entry": "frame", "source": src, "root": p[2], "value": v, "probe": p[0], "dialect": sc.dialect,
                               "creations": list(log), "observed": show(a), "expected": show(b)},
@@ -739,11 +748,46 @@ def fresh_subclass_agrees(ctx, sc, mod, cn, n, Dl, kw, vals_by_root):
             c = res_key(L.call(lambda: o.to_dict(dialect=Dl) if Dl else o.to_dict())) if sc.cls(cn).mixin else None
             d = res_key(L.call(lambda: BasicEncoder(base, **kw).encode(o)))
             ctx.count(("fresh-sub", sc.sid, cn, n), n=4)
+            if (a != b and trap_sig(sc, ("data", cn), a, b)) or (c is not None and c != d and trap_sig(sc, ("data", cn), c, d)):
+                ctx.hist("oracle_kind", "skipped:lazy-dialect-first-call(fresh subclass)")
+                return None
             if a != b:
                 return f"_S{n}.to_dict = {show(a)} but BasicEncoder(_S{n}).encode = {show(b)}"
             if c is not None and c != d:
                 return f"after calling the subclass: {cn}.to_dict = {show(c)} but BasicEncoder({cn}).encode = {show(d)}"
             return None
+    return None
+
+
+def effective_lazy(c) -> bool:
+    if c.own_config:
+        return c.extra.get("lazy_compilation") == "True"
+    return effective_lazy(c.parent) if c.parent else False
+
+
+def lazy_dialect_trap(sc, t, seen=None) -> bool:
+    """t reaches a lazily compiled class with a field annotated by a PLAIN dataclass"""
+    seen = set() if seen is None else seen
+    for n in L.data_names(t):
+        if n in seen:
+            continue
+        seen.add(n)
+        c = sc.cls(n)
+        for (_, _, ft) in c.fields:
+            if effective_lazy(c) and any(not sc.cls(k).mixin for k in L.data_names(ft)):
+                return True
+            if lazy_dialect_trap(sc, ft, seen):
+                return True
+    return False
+
+
+def trap_sig(sc, t, mixin_outcome, other_outcome):
+    """known finding C15/lazy-dialect-first-call: calls carry `dialect=`, the type reaches a lazy class with a plain
+    dataclass field, and the MIXIN entry point fails (AttributeError: no __mashumaro_to_dict__/__mashumaro_from_dict__
+    on the nested class, possibly wrapped) where the other entry point does not fail the same way"""
+    if sc.dialect is not None and sc.lazy and mixin_outcome[0] == "err" and mixin_outcome != other_outcome \
+            and lazy_dialect_trap(sc, t):
+        return {"kind": "lazy-dialect-first-call"}
     return None
 
 
@@ -825,10 +869,12 @@ def run(ctx: vlib.Ctx):
                 info = {}
                 flavour = ctx.rng.random()
                 sub_p, junk_p = (0.0, 0.0) if flavour < 0.7 else ((0.3, 0.0) if flavour < 0.88 else (0.1, 0.25))
-                if sc.lazy:
-                    # a lazy stub compiles for self.__class__: what a non-exact instance dispatches to depends on
-                    # the call order (C14 territory) - lazy scenarios keep exact classes
-                    sub_p, junk_p = 0.0, 0.0
+                if sc.lazy or sc.dialect is not None:
+                    # a lazy stub compiles for self.__class__, and with `dialect=` the inherited method looks the packer up
+                    # in self.__class__'s (possibly INHERITED) dialect cache: what a strict-subclass instance dispatches to
+                    # then depends on which class was called first (C14 territory, same family as the known finding
+                    # subclass-creation-installs-method) - these scenarios keep exact classes
+                    sub_p, junk_p = 0.0, junk_p if not sc.lazy else 0.0
                 v = L.gen_value(ctx.rng, sc, t, sub_p, junk_p, info)
                 vals.append((i, v, info))
         scen.append((sc, vals))
